@@ -283,12 +283,18 @@ func (vc *FuncVC) heldTerm(st *State, g *Guarded, ref string) string {
 }
 
 func (vc *FuncVC) checkRead(st *State, a *Addr, instr ssa.Instruction) {
+	if st.freshRefs[a.Ref.T] {
+		return // object created by this activation: not shared yet
+	}
 	if g := vc.guardOf(a.Heap); g != nil {
 		vc.addOblig(st, "lock", "lock/read-of-"+g.Field+vc.instrOrd(instr, "load")+"/under-lock", vc.lockTags(), app(">=", vc.heldTerm(st, g, a.Ref.T), "1"))
 	}
 }
 
 func (vc *FuncVC) checkWrite(st *State, a *Addr, instr ssa.Instruction) {
+	if st.freshRefs[a.Ref.T] {
+		return
+	}
 	if g := vc.guardOf(a.Heap); g != nil {
 		vc.addOblig(st, "lock", "lock/write-of-"+g.Field+vc.instrOrd(instr, "store")+"/under-write-lock", vc.lockTags(), eq(vc.heldTerm(st, g, a.Ref.T), "2"))
 	}
